@@ -250,6 +250,14 @@ def m_vec_remove(eng, call, args):
     return mk("elem", old)
 
 
+@model("std::vec::Vec::<T, A>::insert")
+def m_vec_insert(eng, call, args):
+    old = val(eng, call, args[0])
+    call["pre"] = ("le", args[1], eng.length(call["state"], old))
+    eng.assign_through(call, args[0], mk("inserted", old, args[1], args[2]))
+    return mk("unit")
+
+
 def _range_bounds(eng, call, base_len, r):
     """(lo, hi) of a range aggregate applied to a sequence of length base_len; None if not a range"""
     if r.op == "agg" and r.args[0].startswith("adt:"):
